@@ -56,9 +56,10 @@ InDomain(a, d) ==
 
 Names(ps) == {ps[k][1] : k \in 1..Len(ps)}
 NameSeq(ps) == [k \in 1..Len(ps) |-> ps[k][1]]
-Lookup(ps, n) == ps[CHOOSE k \in 1..Len(ps) : ps[k][1] = n][2]
 HasName(ps, n) == \E k \in 1..Len(ps) : ps[k][1] = n
-
+\* total: a name that is absent maps to the impossible domain [dt |-> -1, sh |-> <<>>]
+Lookup(ps, n) ==
+  IF HasName(ps, n) THEN ps[CHOOSE k \in 1..Len(ps) : ps[k][1] = n][2] ELSE [dt |-> -1, sh |-> <<>>]
 RECURSIVE FilterPairs(_, _)
 \* keep the pairs whose name is NOT in the set drop
 FilterPairs(ps, drop) ==
@@ -90,7 +91,7 @@ ArrayReductions == {"sum", "prod", "amax", "amin", "all", "any", "logsumexp"}
 \* part = [k |-> "int", i] | [k |-> "slice", start, step, n]  (n = number of taken items)
 RECURSIVE SliceShape(_, _)
 SliceShape(sh, parts) ==
-  IF parts = <<>> THEN sh
+  IF parts = <<>> \/ sh = <<>> THEN sh
   ELSE IF Head(parts).k = "int" THEN SliceShape(Tail(sh), Tail(parts))
   ELSE <<Head(parts).n>> \o SliceShape(Tail(sh), Tail(parts))
 
@@ -101,7 +102,8 @@ OutDom1(op, d) ==
     [] op.n \in ArrayReductions ->
          (LET axis == op.p[1]  keep == op.p[2] = 1
               nd == Len(d.sh)
-              ax == IF axis < 0 THEN axis + nd ELSE axis
+              ax0 == IF axis < 0 THEN axis + nd ELSE axis
+              ax == IF ax0 < 0 \/ ax0 >= nd THEN 0 ELSE ax0
               sh == IF axis = NoAxis
                     THEN (IF keep THEN [j \in 1..nd |-> 1] ELSE <<>>)
                     ELSE (IF keep THEN [j \in 1..nd |-> IF j = ax + 1 THEN 1 ELSE d.sh[j]]
@@ -116,9 +118,10 @@ OutDom2(op, a, b) ==
   CASE op.n \in {"eq", "ne", "lt", "le", "gt", "ge"} -> Dom(2, sh)
     [] op.n = "getitem" -> Dom(a.dt, DropAt(a.sh, op.p[1] + 1))
     [] op.n = "matmul" ->
-         Dom(0, CASE Len(b.sh) = 1 -> SubSeq(a.sh, 1, Len(a.sh) - 1)
-                  [] Len(a.sh) = 1 -> <<b.sh[2]>>
-                  [] OTHER -> <<a.sh[1], b.sh[2]>>)
+         (IF Len(a.sh) \notin {1, 2} \/ Len(b.sh) \notin {1, 2} THEN Dom(-1, <<>>)
+          ELSE Dom(0, CASE Len(b.sh) = 1 -> SubSeq(a.sh, 1, Len(a.sh) - 1)
+                        [] Len(a.sh) = 1 -> <<b.sh[2]>>
+                        [] OTHER -> <<a.sh[1], b.sh[2]>>))
     [] a.dt = 0 \/ b.dt = 0 -> Dom(0, sh)
     [] op.n = "add" -> Dom(a.dt + b.dt - 1, sh)
     [] op.n = "mul" -> Dom((a.dt - 1) * (b.dt - 1) + 1, sh)
@@ -130,11 +133,13 @@ OutDom2(op, a, b) ==
     [] op.n = "pow" -> Dom(IPow(a.dt - 1, b.dt - 1) + 1, sh)
     [] OTHER -> Dom(a.dt, sh)
 
------------------------------------------------------------------------------
-(* typing rules of terms *)
-
-RECURSIVE Inputs(_)
-RECURSIVE Output(_)
+-----------------------------------------------------------------------------------------------------------------------------------------------------
+(* typing rules of terms.                                                    *)
+(* An ANNOTATED term carries at every node  ti (its ordered inputs, a        *)
+(* sequence of <<name, dom>>) and  to (its output domain), so that neither   *)
+(* typing nor evaluation ever recomputes the inputs of a subterm.  TI / TO   *)
+(* give the annotation of a node whose children are already annotated;       *)
+(* Ann(t) annotates a raw term bottom-up.                                    *)
 
 TenInputs(t) == [k \in 1..Len(t.ins) |-> <<t.ins[k][1], BintD(t.ins[k][2])>>]
 
@@ -142,95 +147,149 @@ SliceSize(t) ==
   LET stop == IMin(t.dt, IMax(t.start, t.stop)) IN
   IMax(0, CeilDiv(stop - t.start, t.step))
 
-RECURSIVE CatSize(_, _)
-CatSize(parts, pn) ==
-  IF parts = <<>> THEN 0
-  ELSE Lookup(Inputs(Head(parts)), pn).dt + CatSize(Tail(parts), pn)
-
-Inputs(t) ==
-  CASE t.c = "Var" -> << <<t.name, t.dom>> >>
-    [] t.c = "Num" -> <<>>
-    [] t.c = "Ten" -> TenInputs(t)
-    [] t.c = "Un" -> Inputs(t.arg)
-    [] t.c = "Bin" -> Merge(Inputs(t.l), Inputs(t.r))
-    [] t.c = "Red" -> FilterPairs(Inputs(t.arg), Names(t.vars))
-    [] t.c = "Sub" ->
-         (LET ai == Inputs(t.arg)
-              used == [k \in 1..Len(t.subs) |->
-                         IF HasName(ai, t.subs[k][1]) THEN Inputs(t.subs[k][2]) ELSE <<>>]
-          IN MergeLeft(FilterPairs(ai, Names(t.subs)), used))
-    [] t.c = "Slice" -> << <<t.name, BintD(SliceSize(t))>> >>
-    [] t.c = "Stack" ->
-         MergeLeft(<< <<t.name, BintD(Len(t.parts))>> >>,
-                   [k \in 1..Len(t.parts) |-> Inputs(t.parts[k])])
-    [] t.c = "Cat" ->
-         (LET all == MergeLeft(<<>>, [k \in 1..Len(t.parts) |-> Inputs(t.parts[k])])
-          IN FilterPairs(all, {t.pn, t.name}) \o << <<t.name, BintD(CatSize(t.parts, t.pn))>> >>)
-    [] t.c = "Lam" -> FilterPairs(Inputs(t.expr), {t.var[1]})
-    [] t.c = "Indep" ->
-         (LET fi == Inputs(t.fn)
-              dvd == Lookup(fi, t.dv)
-              bvd == Lookup(fi, t.bv)
-          IN FilterPairs(fi, {t.bv, t.dv}) \o
-             << <<t.rv, Dom(dvd.dt, <<bvd.dt>> \o dvd.sh)>> >>)
-    [] t.c = "Con" ->
-         FilterPairs(MergeLeft(<<>>, [k \in 1..Len(t.terms) |-> Inputs(t.terms[k])]),
-                     Names(t.vars))
-    [] t.c = "Align" ->
-         (LET ai == Inputs(t.arg)
-          IN [k \in 1..Len(t.names) |-> <<t.names[k], Lookup(ai, t.names[k])>>]
-             \o FilterPairs(ai, {t.names[k] : k \in 1..Len(t.names)}))
-    [] t.c = "Delta" ->
-         MergeLeft(<<>>, [k \in 1..Len(t.terms) |->
-              Merge(<< <<t.terms[k][1], Output(t.terms[k][2])>> >>,
-                    Merge(Inputs(t.terms[k][2]), Inputs(t.terms[k][3])))])
-    [] t.c \in {"Fin", "Tup"} -> MergeLeft(<<>>, [k \in 1..Len(t.args) |-> Inputs(t.args[k])])
-    [] t.c = "ConBody" -> MergeLeft(<<>>, [k \in 1..Len(t.terms) |-> Inputs(t.terms[k])])
-    [] OTHER -> <<>>
-
 RECURSIVE FoldOutDom(_, _)
 \* Contraction: right fold of the binary op's domain rule (cnf.py)
 FoldOutDom(op, ds) ==
   IF Len(ds) = 1 THEN ds[1] ELSE OutDom2(op, Head(ds), FoldOutDom(op, Tail(ds)))
 
-Output(t) ==
+TI(t) ==
+  CASE t.c = "Var" -> << <<t.name, t.dom>> >>
+    [] t.c = "Num" -> <<>>
+    [] t.c = "Ten" -> TenInputs(t)
+    [] t.c = "Un" -> t.arg.ti
+    [] t.c = "Bin" -> Merge(t.l.ti, t.r.ti)
+    [] t.c = "Red" -> FilterPairs(t.arg.ti, Names(t.vars))
+    [] t.c = "Sub" ->
+         (LET ai == t.arg.ti
+              used == [k \in 1..Len(t.subs) |->
+                         IF HasName(ai, t.subs[k][1]) THEN t.subs[k][2].ti ELSE <<>>]
+          IN MergeLeft(FilterPairs(ai, Names(t.subs)), used))
+    [] t.c = "Slice" -> << <<t.name, BintD(SliceSize(t))>> >>
+    [] t.c = "Stack" ->
+         MergeLeft(<< <<t.name, BintD(Len(t.parts))>> >>,
+                   [k \in 1..Len(t.parts) |-> t.parts[k].ti])
+    [] t.c = "Cat" ->
+         (LET all == MergeLeft(<<>>, [k \in 1..Len(t.parts) |-> t.parts[k].ti])
+              total == SeqSum([k \in 1..Len(t.parts) |->
+                                 IF HasName(t.parts[k].ti, t.pn)
+                                 THEN Lookup(t.parts[k].ti, t.pn).dt ELSE 0])
+          IN FilterPairs(all, {t.pn, t.name}) \o << <<t.name, BintD(total)>> >>)
+    [] t.c = "Lam" -> FilterPairs(t.expr.ti, {t.var[1]})
+    [] t.c = "Indep" ->
+         (LET fi == t.fn.ti
+              dvd == Lookup(fi, t.dv)
+              bvd == Lookup(fi, t.bv)
+          IN FilterPairs(fi, {t.bv, t.dv}) \o
+             << <<t.rv, Dom(dvd.dt, <<bvd.dt>> \o dvd.sh)>> >>)
+    [] t.c = "Con" ->
+         FilterPairs(MergeLeft(<<>>, [k \in 1..Len(t.terms) |-> t.terms[k].ti]), Names(t.vars))
+    [] t.c = "Align" ->
+         (LET ai == t.arg.ti
+          IN [k \in 1..Len(t.names) |-> <<t.names[k], Lookup(ai, t.names[k])>>]
+             \o FilterPairs(ai, {t.names[k] : k \in 1..Len(t.names)}))
+    [] t.c = "Delta" ->
+         MergeLeft(<<>>, [k \in 1..Len(t.terms) |->
+              Merge(<< <<t.terms[k][1], t.terms[k][2].to>> >>,
+                    Merge(t.terms[k][2].ti, t.terms[k][3].ti))])
+    [] t.c \in {"Fin", "Tup"} -> MergeLeft(<<>>, [k \in 1..Len(t.args) |-> t.args[k].ti])
+    [] OTHER -> <<>>
+
+TO(t) ==
   CASE t.c = "Var" -> t.dom
     [] t.c = "Num" -> Dom(t.dt, <<>>)
     [] t.c = "Ten" -> Dom(t.dt, t.sh)
-    [] t.c = "Un" -> OutDom1(t.op, Output(t.arg))
-    [] t.c = "Bin" -> OutDom2(t.op, Output(t.l), Output(t.r))
-    [] t.c = "Red" -> Output(t.arg)
-    [] t.c = "Sub" -> Output(t.arg)
+    [] t.c = "Un" -> OutDom1(t.op, t.arg.to)
+    [] t.c = "Bin" -> OutDom2(t.op, t.l.to, t.r.to)
+    [] t.c = "Red" -> t.arg.to
+    [] t.c = "Sub" -> t.arg.to
     [] t.c = "Slice" -> BintD(t.dt)
-    [] t.c = "Stack" -> Output(t.parts[1])
-    [] t.c = "Cat" -> Output(t.parts[1])
-    [] t.c = "Lam" -> (LET o == Output(t.expr) IN Dom(o.dt, <<t.var[2].dt>> \o o.sh))
-    [] t.c = "Indep" -> Output(t.fn)
+    [] t.c = "Stack" -> t.parts[1].to
+    [] t.c = "Cat" -> t.parts[1].to
+    [] t.c = "Lam" -> Dom(t.expr.to.dt, <<t.var[2].dt>> \o t.expr.to.sh)
+    [] t.c = "Indep" -> t.fn.to
     [] t.c = "Con" ->
-         (IF t.bin = "nullop" THEN Output(t.terms[1])
-          ELSE FoldOutDom([n |-> t.bin, p |-> <<>>],
-                          [k \in 1..Len(t.terms) |-> Output(t.terms[k])]))
-    [] t.c = "Align" -> Output(t.arg)
+         (IF t.bin = "nullop" THEN t.terms[1].to
+          ELSE FoldOutDom([n |-> t.bin, p |-> <<>>], [k \in 1..Len(t.terms) |-> t.terms[k].to]))
+    [] t.c = "Align" -> t.arg.to
     [] t.c = "Delta" -> RealD
     [] OTHER -> Dom(-1, <<>>)
 
+\* annotate a node whose children are annotated
+Mk(t) == [ti |-> TI(t), to |-> TO(t)] @@ t
+
+RECURSIVE Ann(_)
+Ann(t) ==
+  CASE t.c \in {"Var", "Num", "Ten", "Slice"} -> Mk(t)
+    [] t.c = "Un" -> Mk([c |-> "Un", op |-> t.op, arg |-> Ann(t.arg)])
+    [] t.c = "Bin" -> Mk([c |-> "Bin", op |-> t.op, l |-> Ann(t.l), r |-> Ann(t.r)])
+    [] t.c = "Red" -> Mk([c |-> "Red", op |-> t.op, arg |-> Ann(t.arg), vars |-> t.vars])
+    [] t.c = "Sub" ->
+         Mk([c |-> "Sub", arg |-> Ann(t.arg),
+             subs |-> [k \in 1..Len(t.subs) |-> <<t.subs[k][1], Ann(t.subs[k][2])>>]])
+    [] t.c = "Stack" ->
+         Mk([c |-> "Stack", name |-> t.name, parts |-> [k \in 1..Len(t.parts) |-> Ann(t.parts[k])]])
+    [] t.c = "Cat" ->
+         Mk([c |-> "Cat", name |-> t.name, pn |-> t.pn,
+             parts |-> [k \in 1..Len(t.parts) |-> Ann(t.parts[k])]])
+    [] t.c = "Lam" -> Mk([c |-> "Lam", var |-> t.var, expr |-> Ann(t.expr)])
+    [] t.c = "Indep" ->
+         Mk([c |-> "Indep", fn |-> Ann(t.fn), rv |-> t.rv, bv |-> t.bv, dv |-> t.dv])
+    [] t.c = "Con" ->
+         Mk([c |-> "Con", red |-> t.red, bin |-> t.bin, vars |-> t.vars,
+             terms |-> [k \in 1..Len(t.terms) |-> Ann(t.terms[k])]])
+    [] t.c = "Align" -> Mk([c |-> "Align", arg |-> Ann(t.arg), names |-> t.names])
+    [] t.c = "Delta" ->
+         Mk([c |-> "Delta",
+             terms |-> [k \in 1..Len(t.terms) |->
+                          <<t.terms[k][1], Ann(t.terms[k][2]), Ann(t.terms[k][3])>>]])
+    [] t.c \in {"Fin"} ->
+         Mk([c |-> t.c, op |-> t.op, args |-> [k \in 1..Len(t.args) |-> Ann(t.args[k])]])
+    [] t.c = "Tup" -> Mk([c |-> "Tup", args |-> [k \in 1..Len(t.args) |-> Ann(t.args[k])]])
+    [] OTHER -> Mk(t)
+
+RECURSIVE Strip(_)
+\* the raw term of an annotated one (what is emitted to / received from the harness)
+Strip(t) ==
+  CASE t.c = "Var" -> [c |-> "Var", name |-> t.name, dom |-> t.dom]
+    [] t.c = "Num" -> [c |-> "Num", v |-> t.v, dt |-> t.dt]
+    [] t.c = "Ten" -> [c |-> "Ten", ins |-> t.ins, dt |-> t.dt, sh |-> t.sh, data |-> t.data]
+    [] t.c = "Slice" -> [c |-> "Slice", name |-> t.name, start |-> t.start, stop |-> t.stop,
+                         step |-> t.step, dt |-> t.dt]
+    [] t.c = "Un" -> [c |-> "Un", op |-> t.op, arg |-> Strip(t.arg)]
+    [] t.c = "Bin" -> [c |-> "Bin", op |-> t.op, l |-> Strip(t.l), r |-> Strip(t.r)]
+    [] t.c = "Red" -> [c |-> "Red", op |-> t.op, arg |-> Strip(t.arg), vars |-> t.vars]
+    [] t.c = "Sub" ->
+         [c |-> "Sub", arg |-> Strip(t.arg),
+          subs |-> [k \in 1..Len(t.subs) |-> <<t.subs[k][1], Strip(t.subs[k][2])>>]]
+    [] t.c = "Stack" ->
+         [c |-> "Stack", name |-> t.name, parts |-> [k \in 1..Len(t.parts) |-> Strip(t.parts[k])]]
+    [] t.c = "Cat" ->
+         [c |-> "Cat", name |-> t.name, pn |-> t.pn,
+          parts |-> [k \in 1..Len(t.parts) |-> Strip(t.parts[k])]]
+    [] t.c = "Lam" -> [c |-> "Lam", var |-> t.var, expr |-> Strip(t.expr)]
+    [] t.c = "Indep" -> [c |-> "Indep", fn |-> Strip(t.fn), rv |-> t.rv, bv |-> t.bv, dv |-> t.dv]
+    [] t.c = "Con" ->
+         [c |-> "Con", red |-> t.red, bin |-> t.bin, vars |-> t.vars,
+          terms |-> [k \in 1..Len(t.terms) |-> Strip(t.terms[k])]]
+    [] t.c = "Align" -> [c |-> "Align", arg |-> Strip(t.arg), names |-> t.names]
+    [] t.c = "Delta" ->
+         [c |-> "Delta",
+          terms |-> [k \in 1..Len(t.terms) |->
+                       <<t.terms[k][1], Strip(t.terms[k][2]), Strip(t.terms[k][3])>>]]
+    [] OTHER -> t
+
+\* for raw terms
+Inputs(t) == Ann(t).ti
+Output(t) == Ann(t).to
 InputNames(t) == Names(Inputs(t))
 
 -----------------------------------------------------------------------------
 (* environments *)
 
-\* all assignments of a sequence of <<name, dom>> pairs, as functions name -> array
-Envs(ins) ==
-  LET ns == Names(ins) IN
-  {e \in [ns -> UNION {Elements(ins[k][2]) : k \in 1..Len(ins)}] :
-     \A k \in 1..Len(ins) : e[ins[k][1]] \in Elements(ins[k][2])}
-
 EnvInt(env, n) == env[n].v[1][2]       \* integer value of a bounded-integer input
 
 -----------------------------------------------------------------------------
-(* denotation *)
-
-AFold2(op, a, b) == Pointwise2(op, a, b)
+(* denotation (of ANNOTATED terms) *)
 
 RECURSIVE AFoldSeq(_, _)
 AFoldSeq(op, s) ==
@@ -289,9 +348,9 @@ EvalTen(t, env) ==
   IN IF \E k \in 1..Len(idx) : idx[k] < 0 \/ idx[k] >= sizes[k] THEN UArr
      ELSE [sh |-> t.sh, v |-> [j \in 1..ev |-> t.data[base + j]]]
 
+\* reduce `arg` (annotated, or the internal ConBody node with a ti field) with op over vars
 EvalRed(op, arg, vars, env) ==
-  LET ai == Inputs(arg)
-      present == [k \in 1..Len(ai) |-> ai[k]]
+  LET ai == arg.ti
       pv == FilterPairs(ai, Names(ai) \ Names(vars))          \* reduced and present, arg order
       absent == FilterPairs(vars, Names(ai))
       mult == SeqProd([k \in 1..Len(absent) |-> absent[k][2].dt])
@@ -305,7 +364,7 @@ RECURSIVE CatPick(_, _, _, _)
 \* find the part and the offset inside it that position pos of a Cat refers to
 CatPick(parts, pn, pos, k) ==
   IF k > Len(parts) THEN <<0, 0>>
-  ELSE LET sz == Lookup(Inputs(parts[k]), pn).dt
+  ELSE LET sz == Lookup(parts[k].ti, pn).dt
        IN IF pos < sz THEN <<k, pos>> ELSE CatPick(parts, pn, pos - sz, k + 1)
 
 Eval(t, env) ==
@@ -316,10 +375,10 @@ Eval(t, env) ==
     [] t.c = "Bin" -> ApplyBin(t.op, Eval(t.l, env), Eval(t.r, env))
     [] t.c = "Red" -> EvalRed(t.op, t.arg, t.vars, env)
     [] t.c = "Sub" ->
-         (LET an == InputNames(t.arg)
+         (LET ai == t.arg.ti
+              an == Names(ai)
               keys == {n \in Names(t.subs) : n \in an}
               vals == [n \in keys |-> Eval(Lookup(t.subs, n), env)]
-              ai == Inputs(t.arg)
           IN IF \E n \in keys : HasU(vals[n]) \/ ~InDomain(vals[n], Lookup(ai, n)) THEN UArr
              ELSE Eval(t.arg, [n \in an |-> IF n \in keys THEN vals[n] ELSE env[n]]))
     [] t.c = "Slice" -> Scalar(RInt(t.start + t.step * EnvInt(env, t.name)))
@@ -332,7 +391,7 @@ Eval(t, env) ==
          StackArr([i \in 1..t.var[2].dt |->
                      Eval(t.expr, Override(env, [x \in {t.var[1]} |-> Scalar(RInt(i - 1))]))])
     [] t.c = "Indep" ->
-         (LET n == Lookup(Inputs(t.fn), t.bv).dt
+         (LET n == Lookup(t.fn.ti, t.bv).dt
               x == env[t.rv]
               row(i) == LET rsh == Tail(x.sh) IN
                         [sh |-> rsh, v |-> SubSeq(x.v, i * Size(rsh) + 1, (i + 1) * Size(rsh))]
@@ -342,7 +401,8 @@ Eval(t, env) ==
                          IF y = t.bv THEN Scalar(RInt(i - 1)) ELSE row(i - 1)]))]))
     [] t.c = "Con" ->
          (LET body == IF Len(t.terms) = 1 THEN t.terms[1]
-                      ELSE [c |-> "ConBody", bin |-> t.bin, terms |-> t.terms]
+                      ELSE [c |-> "ConBody", bin |-> t.bin, terms |-> t.terms,
+                            ti |-> MergeLeft(<<>>, [k \in 1..Len(t.terms) |-> t.terms[k].ti])]
           IN IF t.red = "nullop" \/ t.vars = <<>> THEN Eval(body, env)
              ELSE EvalRed(t.red, body, t.vars, env))
     [] t.c = "ConBody" ->
@@ -355,10 +415,9 @@ Eval(t, env) ==
               IF HasU(pt) THEN UArr
               ELSE IF env[t.terms[k][1]] = pt THEN Eval(t.terms[k][3], env)
               ELSE Scalar(NegInf)])
-    [] t.c = "Tup" -> UArr
     [] OTHER -> UArr
 
------------------------------------------------------------------------------
+-----
 (* the finite table of a term and comparisons *)
 
 \* row-major enumeration of the input space, as a sequence of environments
@@ -375,29 +434,35 @@ EnvSeq(ins) ==
              LET i == (k - 1) \div Len(rest)  r == rest[((k - 1) % Len(rest)) + 1]
              IN [x \in DOMAIN r \cup {n} |-> IF x = n THEN els[i + 1] ELSE r[x]]]
 
-Table(t) == LET es == EnvSeq(Inputs(t)) IN [k \in 1..Len(es) |-> Eval(t, es[k])]
+\* value table of an ANNOTATED term over its own input space
+Table(t) == LET es == EnvSeq(t.ti) IN [k \in 1..Len(es) |-> Eval(t, es[k])]
 
-DenDefined(t) == LET tb == Table(t) IN \A k \in 1..Len(tb) : ~HasU(tb[k])
+TabDefined(tb) == \A k \in 1..Len(tb) : ~HasU(tb[k])
+DenDefined(t) == TabDefined(Table(t))
 
-\* u has the same value as t at every point of t's input space; u's inputs must be
-\* among t's (names and domains)
+\* annotated u has inputs among those of annotated t (names and domains)
 InputsSubset(u, t) ==
-  LET ui == Inputs(u)  ti == Inputs(t) IN
-  \A k \in 1..Len(ui) : HasName(ti, ui[k][1]) /\ Lookup(ti, ui[k][1]) = ui[k][2]
+  \A k \in 1..Len(u.ti) : HasName(t.ti, u.ti[k][1]) /\ Lookup(t.ti, u.ti[k][1]) = u.ti[k][2]
 
 DenEqOver(t, u, ins) ==
   LET es == EnvSeq(ins) IN
   \A k \in 1..Len(es) : Eval(t, es[k]) = Eval(u, es[k])
 
-DenEq(t, u) == InputsSubset(u, t) /\ DenEqOver(t, u, Inputs(t))
+\* same value at every point of t's input space, u's inputs among t's
+DenEq(t, u) == InputsSubset(u, t) /\ DenEqOver(t, u, t.ti)
 
-\* t's value does not depend on input n
-IndependentOf(t, n) ==
-  LET ti == Inputs(t)
-      es == EnvSeq(ti)
-  IN \A a \in 1..Len(es), b \in 1..Len(es) :
-       (\A m \in Names(ti) \ {n} : es[a][m] = es[b][m]) => Eval(t, es[a]) = Eval(t, es[b])
+\* number of elements a domain contributes to the enumerated input space
+AxisLen(d) == IF IsBintD(d) THEN d.dt ELSE IF d.dt = 0 THEN Len(RealPts) ELSE 0
 
-DependsOn(t) == {n \in InputNames(t) : ~IndependentOf(t, n)}
+\* the inputs the value really depends on, read off a row-major table tb of t
+DependsOnTab(ins, tb) ==
+  LET sizes == [p \in 1..Len(ins) |-> AxisLen(ins[p][2])]
+      stride == [p \in 1..Len(ins) |-> SeqProd(SubSeq(sizes, p + 1, Len(sizes)))]
+  IN {ins[p][1] : p \in {q \in 1..Len(ins) :
+        \E k \in 1..Len(tb) :
+          tb[k] # tb[k - (((k - 1) \div stride[q]) % sizes[q]) * stride[q]]}}
+
+DependsOn(t) == DependsOnTab(t.ti, Table(t))
+IndependentOf(t, n) == n \notin DependsOn(t)
 
 =============================================================================
